@@ -159,7 +159,7 @@ def main_mutants(argv):
             judge(m["id"], m["prop"], d, results)
         finally:
             shutil.rmtree(d, ignore_errors=True)
-    core.write_json(os.path.join(core.VERIF_DIR, "evidence", "mutants.json"), {"results": results})
+    _merge_results("mutants.json", results, bool(only))
     bad = [r for r in results if r["status"] not in ("CAUGHT",)]
     return 0 if not bad else 1
 
@@ -187,5 +187,15 @@ def main_seeded(argv):
             judge(name, meta["property"], d, results)
         finally:
             shutil.rmtree(d, ignore_errors=True)
-    core.write_json(os.path.join(core.VERIF_DIR, "evidence", "seeded.json"), {"results": results})
+    _merge_results("seeded.json", results, bool(only))
     return 0 if all(r["status"] == "CAUGHT" for r in results) else 1
+
+
+def _merge_results(fname, results, partial):
+    path = os.path.join(core.VERIF_DIR, "evidence", fname)
+    if partial and os.path.exists(path):
+        old = {r["id"]: r for r in json.load(open(path)).get("results", [])}
+        for r in results:
+            old[r["id"]] = r
+        results = [old[k] for k in sorted(old)]
+    core.write_json(path, {"results": results, "note": "sensitivity table: quick check of the property run against a scratch copy of tensorly with the change applied; CAUGHT = exit 1 with a replayable VIOLATION"})
